@@ -127,3 +127,16 @@ claim('C17',
   note='Partial by nature: stack depth, file handling and fgets chunking are runtime behaviour outside the models. Trusted as C16.',
   technique='Rocq proof over buffer-level loop models with Crash/Fuel + guard-page differential execution',
   design='5.17')
+claim('C09',
+  text='Machine-checked theorems (Coq 8.16, closed under the global context): for every history of list operations with int indexes, fewer than 2^31 elements and no walk continued '
+       'with a stale cursor, the qlist model (qlist.c transcribed with its int/size_t conversions, nearest-end walk, node identities, stored num/datasum/max) returns exactly the '
+       'observations of an ideal sequence of byte strings (insert at i = firstn i ++ x :: skipn i, access/removal by nth, rev, concat; 0-based from the front, negative from the back with '
+       '-1 = last for access and -1 = append for insertion), never crashes, keeps num = length and datasum = total bytes, and a refused operation returns the state unchanged; a fresh walk '
+       'after any history yields the current contents in order; queue = FIFO, stack = LIFO, grow = concatenation as corollaries of wrapper refinement theorems. '
+       'Which end each queue/stack/grow function addresses is re-read from the source on every run; model and implementation are run side by side on every (n,index) with n<=8 (12 thorough), '
+       'limits 0-4 x removals, NUL-shaped elements, and random histories, comparing results, errno class, contents, stored counters and the prev/next chain after every operation.',
+  note='Trusted: Coq kernel, extraction (ExtrOcamlBasic only), gen_seqwrap.py, gcc, harness/h_seq.c, ocaml/d_seq.ml. Single-threaded, no allocation failure. The list abstraction of the doubly linked chain '
+       '(reverse, unlink, insert as list operations) is tied to the pointer code by differential execution incl. a backward walk of prev pointers, not by a C semantics. '
+       'Outside the contract (model: Crash; never run): continuing a walk through a freed node, popint/getint on elements shorter than 8 bytes, qgrow addstr(NULL).',
+  technique='Rocq refinement proof (invariant + simulation over histories), explicit two\'s-complement/size_t index arithmetic lemmas, source-derived wrapper table, extracted-model and extracted-spec correspondence',
+  design='5.9')
